@@ -341,6 +341,7 @@ func genC07(t *rapid.T) C07Case {
 		eol = "\r\n"
 	}
 	desc := RenderC07(tree, eol, rapid.IntRange(0, 3).Draw(t, "trailing"), rapid.IntRange(0, 3).Draw(t, "perline") == 0)
+	desc = blankTail(t, desc, eol)
 	return C07Case{Desc: desc, Tree: tree, Origin: "rapid"}
 }
 
@@ -424,6 +425,11 @@ func TestC07Matrix(t *testing.T) {
 		"interface a.b\n\n# +build ignore\n# second line\nmethod M() -> ()\n\n#   +build windows\ntype T (a: int)\n\n#+build js\nerror E (a: int)\n",
 		"# go:build ignore\n# +build */ ignore\ninterface a.b\n# go:generate rm -rf /\nmethod M() -> ()\n",
 		"interface a.b\nmethod M() -> ()\n\n\n",
+		// blanks that are not newlines at the very end: the run-time text may differ by trailing newlines only
+		"interface a.b\nmethod M() -> ()\n  ",
+		"interface a.b\nmethod M() -> () \t",
+		"interface a.b\nmethod M() -> ()\n# closing remark \n",
+		"interface a.b\r\nmethod M() -> ()\r\n\t\r\n",
 		"interface a.b\nmethod Call(send: int) -> (upgrade: int)\nmethod Send() -> ()\nmethod Upgrade() -> ()\nmethod Reply() -> ()\n",
 		"interface a.b\ntype String (s: string)\ntype Context (c: int)\ntype Json (j: object)\nmethod M(s: String, c: Context, j: Json) -> (o: object)\n",
 	)
@@ -445,4 +451,15 @@ func TestC07Matrix(t *testing.T) {
 		return C07Case{}, false
 	}
 	RunCases(t, propC07, "C07Matrix", true, next)
+}
+
+// blankTail: one description in four ends in blanks that are not newlines - after the last member, on a line of their
+// own, or at the end of a closing comment ("up to trailing newlines" is all the run-time text may differ by).
+func blankTail(t *rapid.T, desc, eol string) string {
+	if rapid.IntRange(0, 3).Draw(t, "blanktail") != 0 {
+		return desc
+	}
+	base := strings.TrimRight(desc, "\r\n")
+	tail := rapid.SampledFrom([]string{" ", "\t", "  \t ", eol + "  ", eol + "\t", eol + "# closing remark ", eol + "# closing remark\t" + eol + " ", " " + eol + " " + eol + "\t"}).Draw(t, "blanktailkind")
+	return base + tail + strings.Repeat(eol, rapid.IntRange(0, 1).Draw(t, "blanktailnl"))
 }
